@@ -97,6 +97,12 @@ def m_float(rng, **_) -> M:
         v = round(rng.uniform(-300, 800), rng.choice([1, 2, 3, 4, 5, 6]))
         if v == int(v):
             v += 0.5
+    if rng.random() < 0.04:
+        # very small shifts: Python writes them in exponent notation ('1e-05'), the text must still read back as a number
+        v, t = rng.choice([(1e-05, '0.00001'), (1e-05, '1e-05'), (-2e-05, '-0.00002'), (1.5e-05, '0.000015'),
+                           (3e-06, '3e-06'), (-2e-05, '-2e-05')])
+        sign = rng.choice(['+', '']) if v > 0 else ''
+        return M(f'{sign}{t}', mono=v, avg=v, kind='float-tiny')
     sign = rng.choice(['+', '']) if v > 0 else ''
     return M(f'{sign}{_fmt_float(v)}', mono=v, avg=v, kind='float')
 
@@ -199,8 +205,10 @@ def m_glycan(rng, **_) -> M:
     while True:
         ents = rng.sample(v.mono, rng.randint(1, 3))
         cnts = [rng.randint(1, 5) for _ in ents]
-        text = ''.join(e.name + str(c) for e, c in zip(ents, cnts))
-        want = [(e.name, str(c)) for e, c in zip(ents, cnts)]
+        # an entry is written by its name or by one of its registered synonyms (NeuAc, dHex, HexA, Fucose ...)
+        spell = [rng.choice([e.name] + list(e.synonyms)) if rng.random() < 0.4 else e.name for e in ents]
+        text = ''.join(s + str(c) for s, c in zip(spell, cnts))
+        want = [(s, str(c)) for s, c in zip(spell, cnts)]
         # written so that both the exhaustive and the maximal-munch reading give back the written counts
         if _g.segmentations(text, 2) == [want] and _g.greedy(text) == want:
             break
@@ -421,6 +429,8 @@ def gen_pep(rng, cfg: GenCfg) -> Pep:
         c = rng.randint(1, 6)
         if cfg.neg_charge and rng.random() < 0.25:
             c = -rng.randint(1, 4)
+        elif rng.random() < 0.05:
+            c = rng.choice([10, 11, 12, 15, 20, 25])   # protein-sized charge states: two-digit counts
         p.charge = c
         p.charge_text = f'+{c}' if (c > 0 and rng.random() < 0.3) else str(c)
         if rng.random() < cfg.p_adducts:
